@@ -691,8 +691,14 @@ def oracle_notes(case):
                 rests.add(k)
         t = t0
         notes.append(o_note(e, rests, t, lat, defs))
-        for dt, _ in prog[3]:
-            t += F(dt)
+        for pl in prog[3]:
+            t += F(pl[0])
+            if len(pl) > 2:                       # a key changed between the plays: the next play sends the new value
+                x, r = o_val(pl[2][1])
+                e[pl[2][0]] = x
+                rests.discard(pl[2][0])
+                if r:
+                    rests.add(pl[2][0])
             notes.append(o_note(e, rests, t, lat, defs))
         return notes, t
     if prog[0] == 'restart':
@@ -1047,6 +1053,12 @@ class Check(common.Check):
             # harmonic / detune, which play() folds into the stored freq
             ev = [kv for kv in g.event(defs) if kv[0] not in ('harmonic', 'detune') and kv[1][0] != 's' or kv[0] in ('instrument', 'add_action')]
             plays = [[g.dy(0, 2, (1, 2, 4)), rng.choice(['same', 'same', 'copy'])] for _ in range(rng.randint(1, 3))]
+            if rng.random() < 0.5:
+                # a plain control value of the object is changed between two plays
+                for pl in plays:
+                    if rng.random() < 0.6:
+                        k = rng.choice(['pan', 'foo', 'bar', 'amp'])
+                        pl.append([k, g.key_val(k)])
             prog = ['replay', t0, ev, plays]
         elif x < 0.64:
             # a composite pattern stopped mid-way and played again with reset=True (no Pmono; the stop time
@@ -1075,7 +1087,14 @@ class Check(common.Check):
             prog = ['pat', t0, g.mono(defs)]
         else:
             prog = ['pat', t0, g.pat(defs)]
-        return {'lat': lat, 'defs': defs, 'prog': prog}
+        case = {'lat': lat, 'defs': defs, 'prog': prog}
+        if prog[0] in ('event', 'replay', 'redef') and rng.random() < 0.2:
+            # played on a second server (client id 2) without an explicit group: that server's default group
+            prog[2] = [kv for kv in prog[2] if kv[0] != 'group']
+            if prog[0] == 'event' and len(prog) > 3:
+                prog[3] = [k for k in prog[3] if k != 'group']
+            case['server2'] = True
+        return case
 
     def gen(self, rng, n):
         base = rng.randrange(10 ** 6)
@@ -1103,7 +1122,17 @@ class Check(common.Check):
             elif p[0] == 'restart':
                 lines.append(f'restart {p[1]} {p[3]} {p[4]} {sx_pat(p[2])}')
             elif p[0] == 'replay':
-                lines.append(f'replay {p[1]} {sx_ev(p[2])} ({" ".join(d for d, _ in p[3])})')
+                if any(len(pl) > 2 for pl in p[3]):
+                    # keys change between the plays: one play of the current event per time
+                    ev, t = [list(kv) for kv in p[2]], F(p[1])
+                    lines.append(f'event {t} {sx_ev(ev)}')
+                    for pl in p[3]:
+                        t += F(pl[0])
+                        if len(pl) > 2:
+                            ev = [kv for kv in ev if kv[0] != pl[2][0]] + [list(pl[2])]
+                        lines.append(f'event {t} {sx_ev(ev)}')
+                else:
+                    lines.append(f'replay {p[1]} {sx_ev(p[2])} ({" ".join(pl[0] for pl in p[3])})')
             elif p[0] == 'redef':
                 d = p[4]
                 lines.append(f'event {p[1]} {sx_ev(p[2])}')
